@@ -245,4 +245,45 @@ theorem count_eq_one_of_nodup {α : Type} [DecidableEq α] {l : List α} {a : α
       | head => exact absurd rfl hx
       | tail _ h' => exact ih h.2 h'
 
+theorem foldE_prefix {α β ε : Type} {f : β → α → Except ε β} (I : List α → β → Prop) :
+    ∀ (l pre : List α) (b b' : β),
+      (∀ pre' a c c', a ∈ l → I pre' c → f c a = .ok c' → I (pre' ++ [a]) c') →
+      I pre b → foldE f b l = .ok b' → I (pre ++ l) b' := by
+  intro l
+  induction l with
+  | nil =>
+    intro pre b b' _ hb h
+    simp only [foldE] at h
+    cases h; simpa using hb
+  | cons a as ih =>
+    intro pre b b' hstep hb h
+    simp only [foldE] at h
+    cases hfa : f b a with
+    | error e => rw [hfa] at h; cases h
+    | ok b1 =>
+      rw [hfa] at h
+      have := ih (pre ++ [a]) b1 b'
+        (fun pre' a' c c' ha' => hstep pre' a' c c' (List.mem_cons_of_mem _ ha'))
+        (hstep pre a b b1 List.mem_cons_self hb hfa) h
+      simpa [List.append_assoc] using this
+
+theorem lookupL_cons_ne (l : List (Nat × List Nat)) (g h : Nat) (X : List Nat) (hne : h ≠ g) :
+    lookupL ((g, X) :: l) h = lookupL l h := by
+  have : (g == h) = false := by simpa using fun e => hne e.symm
+  simp [lookupL, List.find?_cons, this]
+
+theorem lookupL_cons_self (l : List (Nat × List Nat)) (g : Nat) (X : List Nat) :
+    lookupL ((g, X) :: l) g = X := by
+  simp [lookupL, List.find?_cons]
+
+theorem lookupL_nokey (l : List (Nat × List Nat)) (g : Nat) (h : ∀ e ∈ l, e.1 ≠ g) :
+    lookupL l g = [] := by
+  unfold lookupL
+  split
+  · rename_i e he
+    have h1 := List.mem_of_find?_eq_some he
+    have h2 := List.find?_some he
+    exact absurd (by simpa using h2) (h e h1)
+  · rfl
+
 end BuildAlg
